@@ -130,6 +130,10 @@ theorem C16_spec_exact (P : Params) (m : Nat → Option V3) (point : V3) :
     ((specNear P m point).map (·.1)).Nodup :=
   ⟨Proofs.Engine.mem_specNear P m point, Proofs.Engine.nodup_specNear P m point⟩
 
+/-- the residue at x = 15/4 seen from x = 1/4 across the face: index 2, its position, d² = 1/4 -/
+example : ((2, ⟨15 / 4, 1, 1⟩, 1 / 4) : Nat × V3 × Rat) ∈ specNear exP (absRun exInit exOps) ⟨1 / 4, 1, 1⟩ := by
+  decide +kernel
+
 /-- Inside the box, the direction the force is applied along has exactly the length the magnitude was
 computed for, and that length is `pbc_min_dist` (the KD-tree's distance, the `np.round` image vector and
 the `%`-based minimum image agree).  The defect fixed in 173d860 violated the first equation. -/
@@ -189,6 +193,9 @@ theorem C16_minimage_symm (a b L : V3) : minImageSq a b L = minImageSq b a L :=
 theorem C16_minimage_periodic (a b L : V3) (hL : boxPos L) (kx ky kz : ℤ) :
     minImageSq ⟨a.x + L.x * kx, a.y + L.y * ky, a.z + L.z * kz⟩ b L = minImageSq a b L :=
   Proofs.Geometry.minImageSq_periodic a b L hL kx ky kz
+
+example : minImageSq ⟨1 / 4 + 4 * (-2 : ℤ), 1 + 3 * (1 : ℤ), 1 + 5 * (0 : ℤ)⟩ ⟨15 / 4, 1, 1⟩ ⟨4, 3, 5⟩ = 1 / 4 ∧
+    minImageSq ⟨15 / 4, 1, 1⟩ ⟨1 / 4, 1, 1⟩ ⟨4, 3, 5⟩ = 1 / 4 := by decide +kernel
 
 /-- … and never exceed the direct distance -/
 theorem C16_minimage_le_direct (a b L : V3) (hL : boxPos L) : minImageSq a b L ≤ (a - b).normSq :=
